@@ -64,8 +64,11 @@ Ltac alg_ring := intros; vm_compute; lits; lanes_k ltac:(ring).
 (* rational functions: the side conditions of [field] (the code's own denominators) follow from the hypotheses H : d <> k0 *)
 Ltac side_nz := repeat split; let Hc := fresh "Hc" in (intro Hc; match goal with H : _ <> k0 |- _ => apply H; rewrite <- Hc; ring | H : _ <> k0 |- _ => apply H; exact Hc end).
 (* uninterpreted functions (sqrt) of arguments that agree as polynomials *)
-Ltac congr_ring := first [ring | (f_equal; congr_ring)].
-Ltac congr_ring_p := first [ring | (progress f_equal; congr_ring_p)].
+(* arguments of uninterpreted functions that agree as polynomials are made syntactically equal; division is x * /y in any field *)
+Ltac unify_un := repeat match goal with |- context[k_un ?o ?a] => match goal with |- context[k_un o ?b] => lazymatch a with b => fail | _ => replace b with a by ring end end end.
+Ltac ring_div := unify_un; rewrite ?(Fdiv_def Kth); ring.
+Ltac congr_ring := first [ring | ring_div | (progress f_equal; congr_ring)].      (* progress: an unprovable leaf must fail, not loop *)
+Ltac congr_ring_p := congr_ring.
 Ltac alg_congr := intros; vm_compute; lits; lanes_k ltac:(congr_ring).
 Ltac alg_field := intros; vm_compute; lits; lanes_k ltac:(field; side_nz).
 '''
